@@ -17,11 +17,11 @@ from __future__ import annotations
 import ast
 from typing import Any, Dict, List, Optional, Sequence, Set, Tuple
 
-from checks.c03 import K
+from checks.c03 import K, spec
 from checks.c08e import evidence
 from sa import astq
 from sa.blockeval import Unknown
-from sa.fragment import BlockEval2, Obj, Raised, module_callables
+from sa.fragment import BlockEval2, Obj, Raised, func_callable, module_callables
 from sa.model import norm
 from sa.normalize import backward_slice
 
@@ -171,3 +171,364 @@ def rename_maps(chk, fi) -> Optional[List[Tuple[str, List[str], Dict[str, str]]]
             raise Unknown(f"the rename map is not a dictionary (slice ends with {kind})")
         out.append((tag, cols, dict(mp)))
     return out
+
+
+# --------------------------------------------------------------------------------------------------------------------
+# round 4: fit_to_pdb interpreted as a whole on representative tables (pandas objects: sa/frame.py)
+# --------------------------------------------------------------------------------------------------------------------
+CIF_CATEGORY = ["group_PDB", "id", "type_symbol", "label_atom_id", "auth_atom_id", "label_alt_id", "label_comp_id", "auth_comp_id", "label_asym_id", "auth_asym_id", "label_entity_id", "pdbx_PDB_ins_code"]
+CIF_INT = ["label_seq_id", "auth_seq_id", "pdbx_PDB_model_num", "pdbx_formal_charge"]
+# PDB field -> the mmCIF item(s) it comes from (author items preferred), used to compare the fitted table with its source
+FIELD_SOURCE = {
+    "record_type": ["group_PDB"], "name": ["auth_atom_id", "label_atom_id"], "altLoc": ["label_alt_id"], "resName": ["auth_comp_id", "label_comp_id"], "x": ["Cartn_x"], "y": ["Cartn_y"], "z": ["Cartn_z"],
+    "occupancy": ["occupancy"], "tempFactor": ["B_iso_or_equiv"], "element": ["type_symbol"], "charge": ["pdbx_formal_charge"], "model": ["pdbx_PDB_model_num"],
+}
+
+
+def cif_rows(spec_rows: Sequence[Tuple[Any, ...]], first_id: int = 1, icode_column: bool = True) -> List[Dict[str, Any]]:
+    """(chain, number, insertion code[, model]) per atom -> rows of an mmCIF atom table; every other field identifies its row."""
+    out = []
+    for k, r in enumerate(spec_rows):
+        chain, num, ic = r[0], r[1], r[2]
+        model = r[3] if len(r) > 3 else 1
+        row = {
+            "group_PDB": "HETATM" if k % 5 == 4 else "ATOM", "id": first_id + k, "type_symbol": ["P", "C", "N", "O"][k % 4], "label_atom_id": ["P", "C4'", "N1", "O6"][k % 4], "auth_atom_id": ["P", "C4'", "N1", "O6"][k % 4],
+            "label_alt_id": "A" if k % 4 == 1 else None, "label_comp_id": ["G", "C", "A", "U"][k % 4], "auth_comp_id": ["G", "C", "A", "U"][k % 4], "label_asym_id": chain, "auth_asym_id": chain, "label_entity_id": "1",
+            "label_seq_id": num, "auth_seq_id": num, "pdbx_PDB_ins_code": ic, "Cartn_x": 1.5 + k, "Cartn_y": -2.25 - k, "Cartn_z": 30.125 + k, "occupancy": round(0.35 + 0.05 * k, 2), "B_iso_or_equiv": 20.5 + k,
+            "pdbx_formal_charge": None, "pdbx_PDB_model_num": model,
+        }
+        if not icode_column:
+            del row["pdbx_PDB_ins_code"]
+        out.append(row)
+    return out
+
+
+# (tag, what the table isolates, rows, keyword arguments of cif_rows, row labels)
+FIT_TABLES: List[Tuple[str, str, List[Tuple[Any, ...]], Dict[str, Any], Optional[List[int]]]] = [
+    ("two chains, one with a long id; residues in contiguous blocks, few with an insertion code", "basic", [("AA", 5, None), ("AA", 5, None), ("AA", 5, "A"), ("AA", 6, None), ("B", 5, None), ("B", 6, None)], {}, None),
+    ("a residue whose atoms are not contiguous (hydrogens listed after the heavy atoms of the chain)", "noncontiguous", [("AA", 5, None), ("AA", 6, None), ("AA", 7, None), ("AA", 5, None), ("AA", 6, None)], {}, None),
+    ("interleaved chains that come back to an unfinished residue", "noncontiguous", [("AA", 5, None), ("B", 5, None), ("AA", 5, None), ("B", 5, None), ("B", 6, None)], {}, None),
+    ("residue numbers above 9999, negative numbers, one number with several insertion codes", "basic", [("A", -3, None), ("A", 10000, None), ("A", 10000, "A"), ("A", 10000, "B"), ("A", 10001, None)], {}, None),
+    ("serials above 99999 in a table of short chain ids", "basic", [("A", 1, None), ("A", 2, None), ("B", 1, None)], {"first_id": 99999}, None),
+    ("a table without the optional insertion-code column", "no-icode", [("AA", 5, None), ("AA", 6, None), ("B", 5, None)], {"icode_column": False}, None),
+    ("one model cut out of a larger table (row labels 100, 101, ...)", "labels", [("AA", 5, None), ("AA", 5, "A"), ("B", 7, None), ("AA", 6, None)], {}, [100, 101, 102, 103]),
+    ("a two-model table handed over whole (model 2 repeats the residue identities of model 1)", "noncontiguous", [("AA", 5, None, 1), ("AA", 6, None, 1), ("AA", 5, None, 2), ("AA", 6, None, 2)], {}, None),
+    ("insertion codes on every residue", "basic", [("AA", 5, "A"), ("AA", 5, "B"), ("AA", 5, "B"), ("B", 5, "A")], {}, None),
+]
+
+
+def cif_table(repo, rows: List[Dict[str, Any]], labels: Optional[List[int]] = None):
+    """The mmCIF table of these atom_site rows *as the current parse_cif_atoms builds it* (interpreted, see checks/c08e.py:V2CifReader),
+    so that what is fitted has the column types the reader really produces (author numbers and ids as text categories, label numbers
+    and models as nullable integers, ...).  When the reader is not evaluable: the typing of the pinned reader, by hand."""
+    from sa.frame import Index, frame_from_rows
+
+    fr = None
+    if rows:
+        try:
+            from checks.c08e import V2CifReader
+
+            def txt(v):
+                return "?" if v is None else (f"{v:.3f}" if isinstance(v, float) else str(v))
+
+            fr = V2CifReader(repo).read([{k: txt(v) for k, v in r.items()} for r in rows], "text")
+            if len(fr.index) != len(rows):
+                fr = None
+        except Exception:
+            fr = None
+    if fr is None:
+        fr = frame_from_rows(rows, "mmCIF", categories=CIF_CATEGORY, ints=CIF_INT)
+    if labels is not None:
+        fr.index = Index(list(labels))
+    return fr
+
+
+def fit_env(repo) -> Dict[str, Any]:
+    from sa.frame import pd_namespace
+
+    env: Dict[str, Any] = {"pd": pd_namespace(), "object": object}
+    fi = repo.func(M, "fit_to_pdb")
+    m = repo.module(M)
+    names, todo = set(), [astq.callee_name(c) for c in ast.walk(fi.node) if isinstance(c, ast.Call)]
+    while todo:
+        n = todo.pop()
+        if n in names or n not in m.funcs or n == "fit_to_pdb":
+            continue
+        names.add(n)
+        todo += [astq.callee_name(c) for c in ast.walk(m.funcs[n].node) if isinstance(c, ast.Call)]
+    env.update(module_callables(repo, M, names=names, outer=env))
+    return env
+
+
+def _snapshot(fr) -> Tuple[Any, ...]:
+    from sa.frame import _key
+
+    return (tuple(fr.index._v), tuple((c, tuple(_key(v) for v in vals)) for c, vals in fr._cols.items()), tuple(sorted(fr.attrs.items())))
+
+
+def _same(a: Any, b: Any) -> bool:
+    from sa.frame import isna
+
+    if (isna(a) or a == "") and (isna(b) or b == ""):
+        return True
+    if isna(a) or isna(b):
+        return False
+    return a == b or str(a) == str(b)
+
+
+def check_fit_eval(chk, fi) -> Optional[Set[str]]:
+    """The rules decided here (their pinned-form versions are then skipped by the caller); None when fit_to_pdb is not evaluable."""
+    from sa.frame import Frame, frame_from_rows, isna
+
+    repo = chk.repo
+    c = spec("constants.json")["C10"]
+    bad: Dict[str, List[str]] = {}
+    okc: Dict[str, int] = {}
+
+    def note(rule: str, msg: Optional[str]) -> None:
+        if msg:
+            bad.setdefault(rule, []).append(msg)
+        else:
+            okc[rule] = okc.get(rule, 0) + 1
+
+    from sa.fragment import coverage
+
+    _cov = coverage()
+    cov = _cov.__enter__()
+    try:
+        env = fit_env(repo)
+        for tag, kind, spec_rows, kw, labels in FIT_TABLES:
+            rows = cif_rows(spec_rows, **kw)
+            df = cif_table(repo, rows, labels)
+            before = _snapshot(df)
+            call = func_callable(repo, M, fi.node, env, max_steps=60000)
+            try:
+                out = call(df)
+            except Raised as ex:
+                note("residue-map" if kind in ("noncontiguous", "labels") else ("column-guard" if kind == "no-icode" else "result"), f"{tag}: fit_to_pdb raises {ex.name} although the table can be fitted")
+                continue
+            except Unknown:
+                raise
+            except Exception as ex:
+                rule = "column-guard" if kind == "no-icode" and isinstance(ex, KeyError) else ("dtype-typestate" if isinstance(ex, TypeError) else "result")
+                note(rule, f"{tag}: fit_to_pdb raises {type(ex).__name__} ({str(ex)[:70]}) although the table can be fitted")
+                continue
+            note("input-untouched", None if _snapshot(df) == before else f"{tag}: the table handed in is changed by fit_to_pdb")
+            if not isinstance(out, Frame) or out is df:
+                note("result", f"{tag}: the table does not fit, yet fit_to_pdb returns {'it unchanged' if out is df else 'no table'}")
+                continue
+            n = len(rows)
+            if len(out.index) != n:
+                note("frame-condition", f"{tag}: {n} atoms in, {len(out.index)} atoms out")
+                continue
+            cols = out._cols
+            missing = [f for f in ("serial", "chainID", "resSeq", "iCode") + tuple(FIELD_SOURCE) if f not in cols]
+            if missing:
+                note("essential-columns", f"{tag}: the fitted table has no column {missing[:4]}")
+                continue
+            note("essential-columns", None)
+            note("result", None if out.attrs.get("format") == "PDB" else f"{tag}: the fitted table is tagged format={out.attrs.get('format')!r}, not 'PDB'")
+            # atoms keep their order and every other field
+            moved = [f for f, srcs in FIELD_SOURCE.items() if not all(_same(cols[f][i], rows[i][srcs[0]]) for i in range(n))]
+            if moved:
+                perm = sorted(str(v) for v in cols["x"]) == sorted(str(r["Cartn_x"]) for r in rows) and "x" in moved
+                note("frame-condition", f"{tag}: " + ("the atoms do not keep their order" if perm else f"field(s) {moved[:4]} of the fitted table differ from the source rows"))
+            else:
+                note("frame-condition", None)
+            old_chain = [r["auth_asym_id"] for r in rows]
+            old_res = [(r["auth_asym_id"], r["auth_seq_id"], None if isna(r.get("pdbx_PDB_ins_code")) else r.get("pdbx_PDB_ins_code")) for r in rows]
+            new_chain = list(cols["chainID"])
+            new_res = [(cols["chainID"][i], None if isna(cols["resSeq"][i]) else int(cols["resSeq"][i]), None if isna(cols["iCode"][i]) or cols["iCode"][i] == "" else cols["iCode"][i]) for i in range(n)]
+            # chains: a one-to-one renaming into single characters
+            fwd: Dict[Any, set] = {}
+            back: Dict[Any, set] = {}
+            for o, nw in zip(old_chain, new_chain):
+                fwd.setdefault(o, set()).add(nw)
+                back.setdefault(nw, set()).add(o)
+            if any(len(v) > 1 for v in fwd.values()) or any(len(v) > 1 for v in back.values()) or any(not isinstance(x, str) or len(x) != c["max_chain_len"] for x in new_chain):
+                note("chain-map", f"{tag}: chains {old_chain} become {new_chain}: not a one-to-one renaming into one-character ids")
+            else:
+                note("chain-map", None)
+            # residues: one-to-one, grouping preserved
+            fwd2: Dict[Any, set] = {}
+            back2: Dict[Any, set] = {}
+            for o, nw in zip(old_res, new_res):
+                fwd2.setdefault(o, set()).add(nw)
+                back2.setdefault(nw, set()).add(o)
+            split = sorted(((o, sorted(v, key=str)) for o, v in fwd2.items() if len(v) > 1), key=str)
+            merged = sorted(((nw, sorted(v, key=str)) for nw, v in back2.items() if len(v) > 1), key=str)
+
+            def show(t):
+                return f"{t[0]}/{t[1]}{t[2] or ''}"
+
+            if any(x[1] is None for x in new_res):
+                note("residue-map", f"{tag}: some atoms get no residue number (residue numbers become {[x[1] for x in new_res]})")
+            elif split:
+                o, v = split[0]
+                note("residue-map", f"{tag}: the atoms of residue {show(o)} are spread over the new residues {', '.join(show(x) for x in v)} - a residue whose atoms are not one contiguous block is split, the renaming is not a mapping of residues (it depends on the row order)")
+            elif merged:
+                nw, v = merged[0]
+                note("residue-map", f"{tag}: residues {', '.join(show(x) for x in v)} are merged into {show(nw)} - the renaming is not one-to-one")
+            elif any(not (1 <= x[1] <= c["max_resseq"]) for x in new_res):
+                note("residue-map", f"{tag}: new residue numbers {[x[1] for x in new_res]} leave 1..{c['max_resseq']}")
+            else:
+                note("residue-map", None)
+            # serials: within the limit, ascending in row order, one number left for the TER of every chain change
+            ser = [None if isna(v) else int(v) for v in cols["serial"]]
+            msg = None
+            if any(v is None for v in ser):
+                msg = "a row gets no serial"
+            elif any(not (1 <= v <= c["max_serial"]) for v in ser):
+                msg = f"serials {ser} leave 1..{c['max_serial']}"
+            elif any(b2 <= a2 for a2, b2 in zip(ser, ser[1:])):
+                msg = f"serials {ser} do not ascend in row order"
+            elif any(new_chain[i] != new_chain[i + 1] and ser[i + 1] - ser[i] < 2 for i in range(n - 1)):
+                msg = f"serials {ser}: no number is left for the TER record where the chain changes"
+            note("serial-renumber", f"{tag}: {msg}" if msg else None)
+        # a table that already fits (PDB rows; mmCIF rows within the limits) is returned itself
+        for fmt, tag in (("PDB", "a PDB-format table"), ("mmCIF", "an mmCIF table within the limits"), ("empty", "an empty mmCIF table")):
+            if fmt == "empty":
+                df = frame_from_rows([], "mmCIF")
+            elif fmt == "PDB":
+                from checks.c09e import _row
+
+                df = frame_from_rows([_row("PDB", k, 1, "A") for k in range(3)], "PDB", categories=["record_type", "name", "altLoc", "resName", "chainID", "iCode", "element", "charge"], ints=["serial", "resSeq", "model"])
+            else:
+                df = cif_table(repo, cif_rows([("A", 1, None), ("A", 2, "A"), ("B", 9999, None)], first_id=99997))
+            before = _snapshot(df)
+            call = func_callable(repo, M, fi.node, env, max_steps=60000)
+            try:
+                out = call(df)
+                note("fits-returns-same", None if out is df and _snapshot(df) == before else f"{tag} is not returned unchanged (a {'copy' if isinstance(out, Frame) else type(out).__name__} comes back{'' if _snapshot(df) == before else ', the input is edited'})")
+            except Raised as ex:
+                note("fits-returns-same", f"{tag}: fit_to_pdb raises {ex.name}")
+    except Unknown as ex:
+        chk.ok("fit-eval", fi.where, f"fit_to_pdb is not evaluable as a whole on representative tables ({str(ex)[:90]}): the pinned-form rules decide")
+        return None
+    finally:
+        _cov.__exit__(None, None, None)
+    texts = {
+        "residue-map": "every residue (chain, number, insertion code) gets one new number 1..n of its chain, different residues get different numbers, also when its atoms are not contiguous, come in several models or carry arbitrary row labels",
+        "chain-map": "chains are renamed one-to-one into single characters",
+        "serial-renumber": "serials ascend from 1 in row order within the limit, leaving a number for the TER of every chain change",
+        "frame-condition": "atoms keep their order; record type, names, coordinates, occupancy, B-factor, element, charge and model are those of the source rows",
+        "input-untouched": "the table handed in is not changed",
+        "result": "a table that needs fitting comes back as a new table tagged format='PDB'",
+        "essential-columns": "the fitted table has the PDB columns the writer reads",
+        "fits-returns-same": "a table that already fits (PDB rows, mmCIF rows within the limits) is returned itself, unchanged",
+        "column-guard": "a table without the optional insertion-code column is fitted as well",
+        "dtype-typestate": "no conversion of a categorical column fails on the representative tables",
+    }
+    # a rule is decided here only when at least one table reached the place where it is looked at
+    decided = {r for r in texts if okc.get(r, 0) > 0} - {"dtype-typestate"}
+    if "column-guard" not in bad and okc.get("residue-map", 0) + len(bad.get("residue-map", [])) >= len(FIT_TABLES):
+        decided.add("column-guard")  # every table, the one without the optional column included, went through the renumbering
+    with evidence(chk, *sorted(set(texts))):
+        from checks.c08e import new_helpers, report_silent_exits
+
+        helpers = [g for g in new_helpers(repo, M) if g is not fi] + ([repo.func(M, "can_write_pdb")] if repo.has_func(M, "can_write_pdb") else [])
+        report_silent_exits(chk, "result", [fi] + helpers, cov, "tables (nine that need fitting, three that do not)", {"continue": "rows or chains are left out of the renaming", "break": "the renaming ends early", "return": "a table is returned before the fitting is complete (or the input itself, unfitted)"})
+        for rule in sorted(set(texts)):
+            if rule in bad:
+                chk.violation(rule, fi.where, f"evaluated on representative tables: {bad[rule][0]}", K(fi, f"eval:{rule}"), found=bad[rule][:4])
+            elif rule in ("residue-map", "frame-condition", "chain-map"):
+                for tag, *_ in FIT_TABLES:
+                    chk.ok(rule, fi.where, f"evaluated ({tag}): {texts[rule]}")
+            elif rule in decided:
+                chk.ok(rule, fi.where, f"evaluated on {len(FIT_TABLES)} tables that need fitting (+3 that do not): {texts[rule]}")
+    return decided | set(bad)
+
+
+# --------------------------------------------------------------------------------------------------------------------
+# round 4: the refusals of fit_to_pdb - which quantity is compared with which limit
+# --------------------------------------------------------------------------------------------------------------------
+# (tag, rows) - small tables that need fitting; atoms + chains, chains and residues-per-chain are pairwise different in each
+FEASIBILITY_TABLES: List[Tuple[str, List[Tuple[Any, ...]]]] = [
+    ("no residue carries an insertion code", [("AA", 5, None)] * 3 + [("AA", 6, None)] * 2 + [("AA", 7, None)] * 2 + [("AA", 8, None), ("B", 1, None), ("B", 2, None)]),
+    ("every residue carries an insertion code", [("AA", 5, "A")] * 2 + [("AA", 5, "B")] * 2 + [("AA", 6, "A")] * 3 + [("B", 1, "A")] * 2),
+    ("few residues carry an insertion code", [("AA", 5, None)] * 2 + [("AA", 5, "A")] * 2 + [("AA", 6, None)] * 2 + [("AA", 7, None), ("AA", 8, None), ("B", 1, None)]),
+    ("a residue whose atoms are listed in two places", [("AA", 5, None), ("AA", 6, None), ("AA", 7, None), ("AA", 5, None), ("AA", 6, None), ("AA", 8, None), ("B", 1, None)] + [("B", 2, None)] * 3),
+    ("equal numbers in different chains", [("AA", 1, None), ("AA", 2, None), ("AA", 3, None), ("AA", 4, None), ("AB", 1, None), ("AB", 2, None), ("C", 1, None)] + [("C", 2, None)] * 4),
+]
+
+
+def refusal_quantities(repo, fi, df, env) -> List[Tuple[ast.If, Any, str, Any]]:
+    """Interpret the top-level statements of fit_to_pdb in order; before every top-level `if L <op> R: ... raise` evaluate L and R.
+    Stops at the first statement that is not evaluable after at least one refusal was seen (the renumbering part is not needed)."""
+    params = [a.arg for a in fi.node.args.args]
+    e = dict(env)
+    e[params[0]] = df
+    ev = BlockEval2(repo, M, e, max_steps=20000)
+    out: List[Tuple[ast.If, Any, str, Any]] = []
+    body = [s for s in fi.node.body if not (isinstance(s, ast.Expr) and isinstance(s.value, ast.Constant))]
+    for st in body:
+        if isinstance(st, ast.If) and isinstance(st.test, ast.Compare) and len(st.test.ops) == 1 and st.body and isinstance(st.body[-1], ast.Raise) and not st.orelse:
+            out.append((st, ev.fold(st.test.left), type(st.test.ops[0]).__name__, ev.fold(st.test.comparators[0])))
+        try:
+            kind, val = ev.run([st])
+        except Unknown:
+            if out:
+                break  # the refusals come first; what follows them (the renumbering) is another rule's business
+            raise
+        if kind != "fall":
+            break
+    return out
+
+
+def check_feasibility_eval(chk, fi) -> bool:
+    """Which quantity each refusal of fit_to_pdb compares with which limit: evaluated on small tables.  The residue refusal must compare
+    the largest number of distinct (number, insertion code) pairs of one chain with 9999 - whatever the counting idiom."""
+    from sa.frame import frame_from_rows, isna
+
+    repo = chk.repo
+    c = spec("constants.json")["C10"]
+    per_limit: Dict[int, List[Tuple[str, Any, str, Any, ast.If]]] = {}
+    try:
+        env = fit_env(repo)
+        for tag, spec_rows in FEASIBILITY_TABLES:
+            rows = cif_rows(spec_rows)
+            df = cif_table(repo, rows)
+            chains: Dict[str, set] = {}
+            for ch, num, ic in spec_rows:
+                chains.setdefault(ch, set()).add((num, ic))
+            want = {c["max_serial"]: len(rows) + len(chains), c["max_chains"]: len(chains), c["max_resseq"]: max(len(v) for v in chains.values())}
+            seen = refusal_quantities(repo, fi, df, env)
+            for st, left, op, right in seen:
+                if isinstance(right, int) and right in want:
+                    per_limit.setdefault(right, []).append((tag, left, op, want[right], st))
+    except Unknown as ex:
+        chk.ok("feasibility-eval", fi.where, f"the refusals of fit_to_pdb are not evaluable on small tables ({str(ex)[:80]}): the pinned-form rule decides")
+        return False
+    except Raised as ex:
+        chk.ok("feasibility-eval", fi.where, f"the feasibility part raises {ex.name} on a small table: the pinned-form rule decides")
+        return False
+    names = {c["max_serial"]: "atoms + TER lines (one per chain)", c["max_chains"]: "chains", c["max_resseq"]: "residues of one chain, i.e. distinct (number, insertion code) pairs"}
+    with evidence(chk, "feasibility"):
+        for limit, what in names.items():
+            got = per_limit.get(limit, [])
+            if not got:
+                chk.violation("feasibility", fi.where, f"no refusal `<quantity> > {limit}` is evaluated before the fitting: a table with more {what.split(',')[0]} than fit is not refused with ValueError", K(fi, f"refusal:{limit}"))
+                continue
+            st = got[0][4]
+            wrong = [(tag, left, want) for tag, left, op, want, _ in got if isna(left) or left != want]
+            ops = {op for _, _, op, _, _ in got}
+            if wrong:
+                tag, left, want = wrong[0]
+                hint = ""
+                if limit == c["max_resseq"] and "insertion code" in tag and isinstance(left, (int, float)) and not isna(left) and left < want:
+                    hint = " - residues without an insertion code are not counted (a group-by over a key column with missing values drops those rows)"
+                elif limit == c["max_resseq"] and isinstance(left, (int, float)) and not isna(left) and left > want:
+                    hint = " - atoms or runs are counted, not residues"
+                chk.violation(
+                    "feasibility",
+                    fi.site(st),
+                    f"the quantity compared with {limit} is not the number of {what}: table where {tag}: it evaluates to {left}, the table has {want}{hint}; a chain with more than {limit} residues is then not refused and gets numbers above the limit" if limit == c["max_resseq"] else f"the quantity compared with {limit} is not the number of {what}: table where {tag}: it evaluates to {left}, the table has {want}",
+                    K(fi, f"refusal:{limit}"),
+                    expected=want,
+                    found=None if isna(left) else left,
+                )
+            elif ops != {"Gt"}:
+                chk.violation("feasibility", fi.site(st), f"the refusal compares the number of {what} with {limit} by {sorted(ops)}, the limit itself must still be accepted (`>`)", K(fi, f"refusal-op:{limit}"))
+            else:
+                chk.ok("feasibility", fi.site(st), f"evaluated on {len(got)} tables: refused when the number of {what} exceeds {limit}")
+    return True
